@@ -4,6 +4,7 @@ import (
 	"context"
 	"encoding/json"
 	"fmt"
+	"math"
 	"net"
 	"net/http"
 	"net/http/httptest"
@@ -32,6 +33,7 @@ type C01Case struct {
 	Real     bool     `json:"real"`
 	Fails    []bool   `json:"fails"`            // per call (cycled): the handler fails with an error that embeds the request's nonce
 	Lists    bool     `json:"lists,omitempty"`  // lib layer: every fourth in-flight slot is a tools/list or prompts/list instead of a call
+	Unenc    []bool   `json:"unenc,omitempty"`  // per call (cycled): the handler returns a result that cannot be encoded (the call ends with an error, promptly)
 	IDBase   int64    `json:"idbase,omitempty"` // lib layer: the client has already issued this many requests (its id counter starts here)
 }
 
@@ -70,6 +72,10 @@ func genC01(t *rapid.T) C01Case {
 		c.Fails = append(c.Fails, rapid.IntRange(0, 2).Draw(t, "fail") == 2)
 	}
 	c.Lists = rapid.Bool().Draw(t, "lists")
+	n = rapid.IntRange(1, 5).Draw(t, "nunenc")
+	for i := 0; i < n; i++ {
+		c.Unenc = append(c.Unenc, rapid.IntRange(0, 5).Draw(t, "unenc") == 5)
+	}
 	c.IDBase = rapid.SampledFrom(c01IDBases).Draw(t, "idbase")
 	if c.Mode == ModeStdio && c.Layer == "lib" {
 		c.Clients = 1 // one child per client; keep the process count down
@@ -115,6 +121,9 @@ func c01Register(w *World, r Registrar) {
 		}
 		if fail, _ := req.Params.Arguments["fail"].(bool); fail {
 			return nil, fmt.Errorf("failed:%s", c01Answer(nonce, int(size)))
+		}
+		if unenc, _ := req.Params.Arguments["unenc"].(bool); unenc {
+			return &mcp.CallToolResult{Content: []mcp.Content{mcp.NewTextContent(c01Answer(nonce, int(size)))}, StructuredContent: map[string]interface{}{"v": math.NaN()}}, nil
 		}
 		return mcp.NewTextResult(c01Answer(nonce, int(size))), nil
 	})
@@ -174,6 +183,7 @@ func execC01Lib(c C01Case) *Failure {
 		n     int
 		fail  bool
 		list  bool
+		unenc bool
 	}
 	var mu sync.Mutex
 	var results []result
@@ -190,6 +200,7 @@ func execC01Lib(c C01Case) *Failure {
 				if fail && size > 5000 {
 					size = 100
 				}
+				unenc := !fail && len(c.Unenc) > 0 && c.Unenc[seq%len(c.Unenc)]
 				wg.Add(1)
 				go func(lc *libClient) {
 					defer wg.Done()
@@ -225,7 +236,7 @@ func execC01Lib(c C01Case) *Failure {
 						mu.Unlock()
 						return
 					}
-					if !fail && len(nonce)%3 == 0 {
+					if !fail && !unenc && len(nonce)%3 == 0 {
 						// the same property through prompts/get
 						preq := &mcp.GetPromptRequest{}
 						preq.Params.Name = "echo"
@@ -245,9 +256,9 @@ func execC01Lib(c C01Case) *Failure {
 					}
 					req := &mcp.CallToolRequest{}
 					req.Params.Name = "echo"
-					req.Params.Arguments = map[string]interface{}{"nonce": nonce, "size": size, "lat": lat, "fail": fail}
+					req.Params.Arguments = map[string]interface{}{"nonce": nonce, "size": size, "lat": lat, "fail": fail, "unenc": unenc}
 					res, err := lc.C.CallTool(ctx, req)
-					r := result{nonce: nonce, size: size, err: err, fail: fail}
+					r := result{nonce: nonce, size: size, err: err, fail: fail, unenc: unenc}
 					if err == nil {
 						r.n = len(res.Content)
 						if len(res.Content) == 1 {
@@ -278,6 +289,16 @@ func execC01Lib(c C01Case) *Failure {
 			}
 			if r.text != want {
 				return Failf("C01/lib/foreign-answer/"+c.Mode.String(), "%s: list request %s received [%s], the server's list is [%s]", where, r.nonce, r.text, want)
+			}
+			continue
+		}
+		if r.unenc {
+			// the result cannot be encoded: the call ends with an error of its own (not with nothing, not with a value)
+			if r.err == nil {
+				return Failf("C01/lib/foreign-answer/"+c.Mode.String(), "%s: call %s whose result cannot be encoded received a result %.80q", where, r.nonce, r.text)
+			}
+			if isTimeoutText(r.err.Error()) || strings.Contains(r.err.Error(), "deadline") {
+				return TimingFailf("C01/lib/no-answer/"+c.Mode.String(), "%s: call %s whose result cannot be encoded got no answer while the connection was up: %v", where, r.nonce, r.err)
 			}
 			continue
 		}
